@@ -47,8 +47,9 @@ def run(ctx, replay):
         # ---- 1. the design: TLC on the transcription
         C2, C3, R2, R3 = ["c1", "c2"], ["c1", "c2", "c3"], ["r1", "r2"], ["r1", "r2", "r3"]
         for (cs, rs, k) in ([(C2, R2, 1), (C2, R2, 2), (C3, R2, 1)] if quick else
-                            [(C2, R2, 1), (C2, R2, 2), (C3, R2, 1), (C3, R2, 2), (C2, R3, 1), (C2, R3, 2), (C3, R3, 1), (C3, R3, 2)]):
-            ctx.model_check(D, "RoomLock", consts(cs, rs, k) + SAFETY, "mc_%d%d%d" % (len(cs), len(rs), k))
+                            [(C2, R2, 1), (C2, R2, 2), (C3, R2, 1), (C3, R2, 2), (C2, R3, 1), (C2, R3, 2)]):
+            # (3 connections x 3 rooms has more than 600 000 states and does not finish in an hour: not part of any tier)
+            ctx.model_check(D, "RoomLock", consts(cs, rs, k) + SAFETY, "mc_%d%d%d" % (len(cs), len(rs), k), timeout=600 if quick else 3000)
         for (cs, rs, k, n) in ([(C2, R2, 1, 3)] if quick else [(C2, R2, 1, 4), (C2, R2, 2, 4), (C3, R2, 1, 3), (C2, R3, 2, 3)]):
             ctx.model_check(D, "RoomLock", consts(cs, rs, k, n) + LIVE, "live_%d%d%d" % (len(cs), len(rs), k))
         # ---- 2. scenarios: every (state, message) of the bounded model
